@@ -472,6 +472,21 @@ func (h *gmeHarness) liveOrder() (line, obs string) {
 			return line, "no-connectivity"
 		}
 	}
+	// an existing MultiEndpoint gets a READY endpoint put on top of its list: it must route there when the update returns
+	o.MultiEndpoints["late"] = &multiendpoint.MultiEndpointOptions{Endpoints: []string{"live3"}}
+	if err := g.UpdateMultiEndpoints(o); err != nil {
+		return line, "err"
+	}
+	if !wait() {
+		return line, "no-connectivity"
+	}
+	o.MultiEndpoints["late"] = &multiendpoint.MultiEndpointOptions{Endpoints: []string{"live1", "live3"}}
+	if err := g.UpdateMultiEndpoints(o); err != nil {
+		return line, "err"
+	}
+	g.mu.RLock()
+	curs = append(curs, g.mes["late"].Current())
+	g.mu.RUnlock()
 	return "gme liveorder final=ok", "cur=" + strings.Join(curs, ",")
 }
 
